@@ -239,7 +239,35 @@ pub fn run(ctx: &mut Ctx) -> Result<(), Violation> {
         "public/secret box key bit flips are not in the family (clamped and masked bits are don't-cares; the property does not list them)".into(),
     ];
     run_mode(ctx, Mode::C02)?;
-    authentic_stream_sequences(ctx)
+    authentic_stream_sequences(ctx)?;
+    long_authentic_stream(ctx.seed, &mut ctx.ev)
+}
+
+/// one long untampered stream (no REKEY / FINAL tags, no manual rekey): every one of its messages must be accepted
+fn long_authentic_stream(seed: u64, ev: &mut Evidence) -> Result<(), Violation> {
+    use dryoc::classic::crypto_secretstream_xchacha20poly1305 as css;
+    use dryoc::dryocstream::{DryocStream, Pull};
+    let mut f = Fill::new(seed, "C02:long-stream");
+    let (key, header): ([u8; 32], [u8; 24]) = (f.arr(), f.arr());
+    let mut push = sodium::stream_init_pull(&header, &key);
+    let mut dst = css::State::new();
+    css::crypto_secretstream_xchacha20poly1305_init_pull(&mut dst, &header, &key);
+    let mut obj: DryocStream<Pull> = DryocStream::init_pull(&key, &header);
+    for i in 0..700usize {
+        let msg = f.bytes(i % 7);
+        let tag = (i % 2) as u8; // MESSAGE / PUSH only
+        let ct = sodium::stream_push(&mut push, &msg, None, tag);
+        ev.eval(2);
+        ev.class("long authentic stream (700 messages, no rekey)");
+        let mut m = vec![0u8; msg.len()];
+        let mut t = 0u8;
+        let a = no_panic(|| css::crypto_secretstream_xchacha20poly1305_pull(&mut dst, &mut m, &mut t, &ct, None).is_ok());
+        let b = no_panic(|| obj.pull_to_vec(&ct, None).map(|(m2, t2)| m2 == msg && t2.bits() == tag).unwrap_or(false));
+        if a != Ok(true) || m != msg || t != tag || b != Ok(true) {
+            return Err(Violation::new("C02", "long-authentic-stream", format!("untampered message #{} of a long stream was not accepted as pushed (classic: {a:?}, object: {b:?})", i + 1), json!({"seed": seed, "index": i})));
+        }
+    }
+    Ok(())
 }
 
 /// "The untampered input is always accepted" for streams means every message of an untampered SEQUENCE: three
@@ -336,6 +364,9 @@ pub fn replay_mode(v: &Violation, mode: Mode) -> Result<(), String> {
 }
 
 pub fn replay(v: &Violation) -> Result<(), String> {
+    if v.kind == "long-authentic-stream" {
+        return long_authentic_stream(v.case["seed"].as_u64().unwrap_or(1), &mut Evidence::default()).map_err(|v| v.message);
+    }
     if v.kind == "authentic-stream-sequence" {
         let t: Vec<u8> = v.case["tags"].as_array().map(|a| a.iter().map(|x| x.as_u64().unwrap_or(0) as u8).collect()).unwrap_or_default();
         let seq: [u8; 3] = t.try_into().map_err(|_| "bad replay file")?;
